@@ -71,7 +71,7 @@ def run_case(case, ctx):
 					lab = H.expected_label(nm)
 				used.add(lab)
 				rel.append(nm if (i % 2 == 0 and nm not in rel) else os.path.join(f'g{i}', nm))
-			paths = H.write_genomes(os.path.join(d, 'base'), genomes, rel)
+			paths = H.write_genomes(os.path.join(d, 'base'), genomes, rel, softmask=case.get('softmask'))
 			labels = [H.expected_label(p) for p in rel]
 			sigs = H.ref_sigs(genomes, eff[0], eff[1])
 			if E:
@@ -209,6 +209,7 @@ def gen_case(draw, tier):
 		'cores': draw(st.sampled_from([None, 1, 4, None])),
 		'list_style': draw(st.integers(0, 4)),
 		'list_cwd': draw(st.sampled_from([None, 'decoy', None, 'implicit'])),
+		'softmask': draw(st.sampled_from([None, 7, None, 11])),
 	}
 
 
